@@ -529,6 +529,15 @@ def make_environ(rq, salt):
     return {k: env[k] for k in keys}
 
 
+def _quote_path(path):
+    """the path as it was on the wire (percent-encoded bytes), which servers put into the optional `raw_path`"""
+    from urllib.parse import quote as _q
+    try:
+        return _q(path, safe="/").encode("ascii")
+    except Exception:  # noqa
+        return path.encode("utf-8", "replace")
+
+
 def make_scope(rq):
     scope = {
         "type": "http",
@@ -537,7 +546,7 @@ def make_scope(rq):
         "method": rq["method"],
         "scheme": rq["scheme"],
         "path": rq["path"],
-        "raw_path": rq["path"].encode("utf-8"),
+        "raw_path": _quote_path(rq["path"]),
         "query_string": rq["query"],
         "root_path": rq["root"],
         "headers": [(n.lower().encode("latin-1"), v.encode("latin-1")) for n, v in rq["headers"]],
@@ -1650,7 +1659,36 @@ def extra(rng, tier):
                         break
     finally:
         wsgi_responses.random_choices, asgi_responses.random_choices = saved
-    return {"violations": violations, "nested_router_apps_compared": checked, "reused_response_requests_compared": reused}
+    # constructor options of one response must not reach a later response (process-wide state): the same plain
+    # recipe before and after a differently configured one, on each interface, and WSGI vs ASGI throughout
+    leaks = 0
+    content = {"k": ["caf\u00e9", "\u65e5", 1.5], "n": None}
+    steps = [("plain", {}), ("options", {"ensure_ascii": True, "indent": 2, "sort_keys": True}), ("plain", {}),
+             ("options", {"separators": (" , ", " : ")}), ("plain", {})]
+    outs = {"W": [], "A": []}
+    for label, kw in steps:
+        rq = req(path="/")
+        try:
+            outs["W"].append(_run_prebuilt_wsgi(W.JSONResponse(content, **kw), rq))
+            outs["A"].append(_run_prebuilt_asgi(A.JSONResponse(content, **kw), rq))
+        except Exception as exc:  # noqa
+            outs["W"].append("ctor %s" % type(exc).__name__)
+            outs["A"].append("ctor %s" % type(exc).__name__)
+        leaks += 1
+    for i, (label, kw) in enumerate(steps):
+        if outs["W"][i] != outs["A"][i]:
+            violations.append({"line": "extra json-options step=%d %s" % (i, label),
+                               "out": "W %s | A %s" % (outs["W"][i], outs["A"][i]),
+                               "why": "JSONResponse(%s) #%d of the sequence %s answers differently: WSGI %s, ASGI %s"
+                                      % (kw or "no options", i + 1, [l for l, _ in steps], outs["W"][i][-80:], outs["A"][i][-80:])})
+            break
+        if label == "plain" and outs["A"][i] != outs["A"][0]:
+            violations.append({"line": "extra json-options step=%d plain-again" % i, "out": outs["A"][i],
+                               "why": "a plain JSONResponse renders differently after a differently configured one was "
+                                      "constructed (options leaked): %s vs %s" % (outs["A"][0][-80:], outs["A"][i][-80:])})
+            break
+    return {"violations": violations, "nested_router_apps_compared": checked, "reused_response_requests_compared": reused,
+            "option_leak_steps": leaks}
 
 
 def _run_prebuilt_wsgi(app, rq):
